@@ -1,22 +1,47 @@
 (* C14 — results do not depend on how the file happens to be written. *)
 From Coq Require Import List Arith Bool String Permutation.
-From PyHam Require Import Tax Ortho Loader Mapper Preds Hist Filter.
-From PyHam.proofs Require Import LoaderFacts ExplicitFacts FilterFacts NamingFacts.
+From PyHam Require Import Tax Ortho Loader Mapper Preds Hist Filter Spell.
+From PyHam.proofs Require Import LoaderFacts ExplicitFacts FilterFacts NamingFacts SpellFacts.
 Import ListNotations.
 
-(* PARTIAL (see DESIGN.md, C14).  The listed rewritings are covered as follows.
-   Proved:
-   - order of members, of lineages and of families in a fully explicit file: every ordering of the
-     explicit encoding of a history h loads to a hierarchy x with `matches h x`, and `matches` does
-     not mention the order of children (it is stated up to Permutation), so two such files give
-     hierarchies matching the same history (c14_explicit_any_order);
-   - order of the families with respect to a filter (c14_family_order);
-   - the member genes of every family are independent of the spelling altogether: whatever nesting,
-     labels or bracketing, they are the genes referenced in the group (c14_members_any_spelling).
-   Not proved (correspondence + oracle only): omission / spelling-out of single-member levels, nested
-   vs flat paralogGroups, TaxRange labels on internal levels, species-level wrappers.  Hash seed and
-   set iteration order do not exist in the model: every place where the code iterates a set is
-   compared order-free, and the check re-runs the real code under several PYTHONHASHSEED values. *)
+(* The listed rewritings are covered as follows.
+   Proved (c14_any_two_spellings): two files that spell the same histories - whichever single-member
+   levels each of them omits or spells out, with TaxRange labels added or removed, group ids relabelled,
+   a multi-copy duplication written as nested or as flat paralogGroups in any bracketing, species-level
+   wrappers or bare geneRefs - both load, and their top-level HOGs match the same histories: same taxon for
+   every HOG, same members, same duplication grouping (`matches` is stated up to the order of children).
+   Re-ordering members, lineages and families: the theorem holds for every ordered history, every
+   re-ordering of a history is a history, and `matches` does not mention order; re-ordering the families
+   with respect to a filter is c14_family_order; the member genes of every family are independent of the
+   spelling altogether (c14_members_any_spelling).
+   PARTIAL in two respects: the statement that a hierarchy matching a re-ordered history also matches the
+   original one is not proved as a lemma (it is immediate from the shape of `matches` but not
+   mechanised), and species/gene order and hash seeds are outside the model: every place where the code
+   iterates a set is compared order-free, and the check re-runs the real code under several
+   PYTHONHASHSEED values. *)
+Theorem c14_any_two_spellings : forall t d d' hs,
+  Forall (species_sane t) (d_species d) -> NoDup (declared d) ->
+  d_species d' = d_species d ->
+  Forall2 (spells_top t) hs (d_groups d) -> Forall2 (spells_top t) hs (d_groups d') ->
+  (forall genes, map fst genes = declared d ->
+     (forall g p, In (g, p) genes -> exists sp, In sp (d_species d) /\ In g (map gd_id (sp_genes sp)) /\ species_resolves t sp p) ->
+     Forall (WFh t genes) hs) ->
+  exists l l', load t d = Ok l /\ load t d' = Ok l' /\
+    Forall2 (fun h top => matches h (snd top) /\ htax (snd top) = xtax h /\ wf_node t (snd top) = true) hs (l_tops l) /\
+    Forall2 (fun h top => matches h (snd top) /\ htax (snd top) = xtax h /\ wf_node t (snd top) = true) hs (l_tops l').
+Proof.
+  intros t d d' hs Hsp Hnd Hs Hg Hg' Hwf.
+  destruct (spelt_load t d hs Hsp Hnd Hg Hwf) as (l & El & Fl).
+  assert (Hdecl : declared d' = declared d) by (unfold declared; rewrite Hs; reflexivity).
+  destruct (spelt_load t d' hs) as (l' & El' & Fl').
+  - rewrite Hs. exact Hsp.
+  - rewrite Hdecl. exact Hnd.
+  - exact Hg'.
+  - intros genes Hm Hr. apply Hwf; [rewrite <- Hdecl; exact Hm|]. intros g p Hin. rewrite <- Hs. apply Hr. exact Hin.
+  - exists l, l'. auto.
+Qed.
+Print Assumptions c14_any_two_spellings.
+
 Theorem c14_explicit_any_order : forall t genes h,
   WFh t genes h ->
   forall pg fr s, dups_dom s ->
